@@ -1,0 +1,81 @@
+//go:build verif
+// +build verif
+
+package localstore
+
+import "github.com/gauss-project/aurorafs/pkg/shed"
+
+// VerifState is a copy of every index and of the persisted gc size, for external
+// runtime monitors.
+type VerifState struct {
+	RetrievalData   []shed.Item // Address, BinID, StoreTimestamp, Data
+	RetrievalAccess []shed.Item // Address, AccessTimestamp
+	GC              []shed.Item // Address (file root), AccessTimestamp, BinID, GCounter
+	Pin             []shed.Item // Address, PinCounter
+	GCSize          uint64
+	Capacity        uint64
+	GCTarget        uint64
+}
+
+// VerifSetNow replaces the package clock and returns a function restoring it.
+func VerifSetNow(f func() int64) (restore func()) {
+	prev := now
+	now = f
+	return func() { now = prev }
+}
+
+// VerifSetGCIteratorDone installs a callback at the existing interleaving point between
+// garbage collection candidate selection and eviction; nil removes it.
+func VerifSetGCIteratorDone(f func()) { testHookGCIteratorDone = f }
+
+// VerifSetCollectGarbageHook installs the existing hook called by the background worker
+// after each collection run.
+func VerifSetCollectGarbageHook(f func(collectedCount uint64)) { testHookCollectGarbage = f }
+
+// VerifCollectGarbage performs one synchronous collection run, exactly what the
+// background worker does for one trigger.
+func (db *DB) VerifCollectGarbage() (collectedCount uint64, done bool, err error) {
+	return db.collectGarbage()
+}
+
+// VerifDump copies all indexes under the batch lock.
+func (db *DB) VerifDump() (s VerifState, err error) {
+	db.batchMu.Lock()
+	defer db.batchMu.Unlock()
+	return db.verifDumpLocked()
+}
+
+// VerifDumpNoLock copies all indexes without taking the batch lock (for use from
+// hook points that already run under it).
+func (db *DB) VerifDumpNoLock() (s VerifState, err error) { return db.verifDumpLocked() }
+
+func (db *DB) verifDumpLocked() (s VerifState, err error) {
+	collect := func(idx shed.Index, out *[]shed.Item) error {
+		return idx.Iterate(func(item shed.Item) (stop bool, err error) {
+			c := item
+			c.Address = append([]byte(nil), item.Address...)
+			c.Data = append([]byte(nil), item.Data...)
+			*out = append(*out, c)
+			return false, nil
+		}, nil)
+	}
+	if err = collect(db.retrievalDataIndex, &s.RetrievalData); err != nil {
+		return s, err
+	}
+	if err = collect(db.retrievalAccessIndex, &s.RetrievalAccess); err != nil {
+		return s, err
+	}
+	if err = collect(db.gcIndex, &s.GC); err != nil {
+		return s, err
+	}
+	if err = collect(db.pinIndex, &s.Pin); err != nil {
+		return s, err
+	}
+	s.GCSize, err = db.gcSize.Get()
+	if err != nil {
+		return s, err
+	}
+	s.Capacity = db.capacity
+	s.GCTarget = db.gcTarget()
+	return s, nil
+}
